@@ -334,3 +334,11 @@ func Preflight(origin, method string, acrh ...string) Req {
 func Actual(method, origin string) Req {
 	return Req{Method: method, Hdr: []HV{{hOrigin, Vals(origin)}}}
 }
+
+func firstVal(r Req, key string) (string, bool) {
+	vs, ok := r.Get(key)
+	if !ok || len(vs) == 0 {
+		return "", false
+	}
+	return vs[0].String(), true
+}
